@@ -68,6 +68,8 @@ def must_facts(g, facts_fn):
                 if t.op == 'br' and len(t.ops) == 3 and succs[0] != succs[1]:
                     outcome = (k == 0)
                     ci = inst_of(g, t.ops[0])
+                    while ci is not None and ci.op == 'xor' and const_of(ci.ops[1]) == 1:      # !x : same condition, flipped outcome
+                        outcome = not outcome; ci = inst_of(g, ci.ops[0])
                     if ci is not None and ci.op == 'phi' and ci.bb == b:
                         acc = None
                         for v, pb in ci.d['incoming']:
@@ -78,7 +80,7 @@ def must_facts(g, facts_fn):
                             acc = meet(acc, e | (facts_fn(g, v, outcome) if c is None else set()))
                         if acc is not None: f |= acc
                     else:
-                        f |= facts_fn(g, t.ops[0], outcome)
+                        f |= facts_fn(g, {'k': 'i', 'id': ci.id}, outcome) if ci is not None else set()
                 if EDGE.get((b, s_)) != f:
                     EDGE[(b, s_)] = f; changed = True
         for b in range(1, nb):
@@ -117,6 +119,9 @@ def counter_invariant(g, phi, IN, EDGE):
     if best: return best if init < best[1] else None
     for f in (IN.get(step.bb) or set()):
         if f[0] == 'lt' and f[1] == ('i', phi.id) and init <= f[2]: return ('weak', f[2])      # incremented only while C < K
+    for f in (IN.get(step.bb) or set()):
+        # incremented only while C != K, counting up from init <= K by one: C <= K at the header (induction), C < K where C != K holds
+        if f[0] == 'ne' and f[1] == ('i', phi.id) and init <= f[2]: return ('weak', f[2])
     return None
 
 
@@ -161,11 +166,14 @@ def counters(ctx, rep):
                     const_off = off + i.d['const_off']
                     bound = None
                     if idx['k'] == 'i':
+                        inv = counter_invariant(g, g.insts[idx['id']], IN, EDGE)
                         for f_ in (IN.get(i.bb) or set()):
                             if f_[0] == 'lt' and f_[1] == ('i', idx['id']): bound = ('in-guard', f_[2])
-                        if bound is None:
-                            inv = counter_invariant(g, g.insts[idx['id']], IN, EDGE)
-                            if inv: bound = (inv[0], inv[1] if inv[0] == 'strict' else inv[1] + 1)
+                        if bound is None and inv and inv[0] == 'weak':
+                            for f_ in (IN.get(i.bb) or set()):
+                                if f_[0] == 'ne' and f_[1] == ('i', idx['id']) and f_[2] == inv[1]: bound = ('in-guard', inv[1])     # C <= K and C != K
+                        if bound is None and inv:
+                            bound = (inv[0], inv[1] if inv[0] == 'strict' else inv[1] + 1)
                     ok = bound is not None and sizes and all(sz is not None and const_off + bound[1] * stride <= sz for sz in sizes)
                     rep.check(ok, 'indexed %s at %s: index < %s, every target object has room' % (users[0].op, i.loc, bound[1] if bound else '?'), i.loc,
                               '%s: indexed %s not bounded by its object' % (base_name(g.name), users[0].op),
@@ -177,6 +185,8 @@ def counters(ctx, rep):
                  'execution in a bitflow harness (counter-controlled loops), the monotone-counter rule IDX-1, or is a read of a constant table indexed by a '
                  'value proved < table size; anything else is an unclassified indexed access')
         covered = set((fn, loc) for fn, loc in bitflow.ACCESS_LOG)
+        from .rules_cmp import comparators
+        cmp_fns = set(base_name(g_.name) for g_, _ in comparators(P)[1].values()) | {'str_split', 'utf8_nfkd_lazy'}
         ninv = 0
         for g in P.defined.values():
             bn = base_name(g.name)
@@ -190,6 +200,7 @@ def counters(ctx, rep):
                     if bn in IDX_EXCEPTIONS: how = 'exception: ' + IDX_EXCEPTIONS[bn]
                     elif (bn, u.loc) in covered: how = 'bitflow'
                     elif bn in anchors: how = 'IDX-1'
+                    elif bn in cmp_fns and u.op == 'load' and u.d['bits'] == 8: how = 'CUR-1 (NUL-cursor discipline, index form)'
                     elif bn == 'write_str': how = 'HELP-1 (copies exactly the source up to its NUL) + SIZE-1 (the sum of all sources fits the buffer)'
                     rep.check(how is not None, 'indexed %s at %s in %s is covered (%s)' % (u.op, u.loc, bn, how), u.loc, '%s: unclassified variable-index %s' % (bn, u.op),
                               sample={'site': u.loc, 'function': bn, 'covered_by': how} if ninv <= 4 else None, key='IDX-2|%s|%s' % (bn, u.op))
@@ -270,6 +281,9 @@ def normaliser_buffers(ctx, rep):
                     idx = strip_ext(g, i.d['var_steps'][0]['idx'])
                     for f_ in (IN.get(i.bb) or set()):
                         if f_[0] == 'lt' and idx['k'] == 'i' and f_[1] == ('i', idx['id']): Ks.add(f_[2])
+                        if f_[0] == 'ne' and idx['k'] == 'i' and f_[1] == ('i', idx['id']):
+                            inv = counter_invariant(g, g.insts[idx['id']], IN, EDGE)
+                            if inv and inv[0] == 'weak' and inv[1] == f_[2]: Ks.add(f_[2])
             K = max(Ks) if Ks else None
             rep.check(K is not None and worst <= K <= S - 1, 'fast-path copy bound %s: longest library phrase (%d) <= bound <= sizeof(polyseed_str)-1 (%d)' % (K, worst, S - 1),
                       '%s:%s' % ((g.file or '').replace('/repo/', ''), g.line), '%s copy bound' % base_name(g.name), detail={'bound': K, 'worst_phrase': worst, 'buffer': S},
